@@ -3,7 +3,7 @@ import sys, os, argparse, importlib, traceback
 sys.path.insert(0, os.path.dirname(os.path.abspath(__file__)))
 import core
 
-MODULES = {"C04": "c_alloc", "C12": "c_alloc", "C13": "c_bufops", "C14": "c_topo", "C05": "c_layout", "C01": "c_layout", "C03": "c_layout", "C06": "c_layout", "C10": "c_update", "C11": "c_update", "C08": "c_refs", "C09": "c_refs", "C02": "c_capi", "C07": "c_capi", "C15": "c_capi", "C16": "c_spec", "C18": "c_hybrid", "C19": "c_hybrid", "C20": "c_hybrid"}
+MODULES = {"C04": "c_alloc", "C12": "c_alloc", "C13": "c_bufops", "C14": "c_topo", "C05": "c_layout", "C01": "c_layout", "C03": "c_layout", "C06": "c_layout", "C10": "c_update", "C11": "c_update", "C08": "c_refs", "C09": "c_refs", "C02": "c_capi", "C07": "c_capi", "C15": "c_capi", "C16": "c_spec", "C17": "c_karg", "C18": "c_hybrid", "C19": "c_hybrid", "C20": "c_hybrid"}
 
 
 def main():
